@@ -3,6 +3,7 @@ import Falcon.Model.KeyCodec
 import Falcon.Gen.Params
 import Falcon.Lemmas.RefFormatEq
 import Falcon.Lemmas.RefSigEq
+import Falcon.Lemmas.RefSigStrip
 import Falcon.Lemmas.CodecRefine
 
 /-!
@@ -164,6 +165,17 @@ theorem our_signatures_decode_at_the_reference (chk : Bool) (logn : Nat) (body :
   apply RefEq.compDecode_complete logn body hb x
   simp only [Spec.decompressRef, hn, if_false] at h95 ⊢
   exact RefEq.decBits_cap_small _ _ _ h95 hx
+
+/-- **"with the zero padding stripped, accepted by the reference"** — the property's wording for the decoder: every
+    signature body this library accepts with coefficients in the reference's range splits into a prefix that the
+    reference's decoder accepts as a whole (all bytes consumed, the same vector) and a suffix of zero bytes -/
+theorem our_signatures_stripped_decode_at_the_reference (chk : Bool) (logn : Nat) (body : List Nat) (hb : ∀ b ∈ body, b < 256)
+    (x : List Int) (h : Codec.decompress chk body (2 ^ logn) = .ok (some x)) (hx : ∀ c ∈ x, c.natAbs ≤ 2047) :
+    ∃ v, v ≤ body.length ∧ RefSig.sigDecode logn (body.take v) = some x ∧ ∀ b ∈ body.drop v, b = 0 := by
+  obtain ⟨used, rest, hbody, hdec, hz⟩ := our_signatures_decode_at_the_reference chk logn body hb x h hx
+  refine ⟨used.length, by rw [hbody]; simp, RefEq.compDecode_strip logn body x used.length hdec, ?_⟩
+  have : body.drop used.length = rest := by rw [hbody]; exact List.drop_left' rfl
+  rw [this]; exact hz
 
 /-- non-vacuity: the reference decodes the 2-coefficient body `[0x01, 0xC1, 0x40]` (+1, −2) consuming 3 bytes -/
 example : RefSig.compDecode 1 [0x01, 0xC1, 0x40] = some ([1, -2], 3) := by decide
